@@ -502,3 +502,90 @@ class NumModule:
                 'From Coq Require Import ZArith PrimFloat Bool.\nFrom AV Require Import lib.Num.\n'
                 'Section Gen.\nContext {N : Num}.\nLocal Open Scope num_scope.\nLocal Open Scope bool_scope.\n\n'
                 + '\n\n'.join(self.defs) + '\n\nEnd Gen.\n')
+
+
+# ---------------------------------------------------------------------------
+# C18: singleton protocol of config/core.py (shape-specific, fail-closed)
+# ---------------------------------------------------------------------------
+
+def extract_singleton_protocol(path: Path) -> str:
+    """Reads, from class Config: the order of the `@model_validator(mode='after')` methods, which of them
+    registers the singleton (`_config = self`), whether that assignment can be reached on a failure path
+    (inside try/finally), which of them refuse when a configuration is active; from `reset` and `get` and
+    `ConfigProxy` the unset handling.  Emits boolean facts as Gallina definitions."""
+    mod = _parse(path)
+    cfg = next((n for n in mod.body if isinstance(n, ast.ClassDef) and n.name == 'Config'), None)
+    if cfg is None:
+        raise Untranslatable('class Config not found')
+
+    def is_after_validator(fn):
+        for d in fn.decorator_list:
+            if isinstance(d, ast.Call) and ast.unparse(d.func) == 'model_validator':
+                kw = {k.arg: ast.unparse(k.value) for k in d.keywords}
+                if kw.get('mode') == "'after'":
+                    return True
+                raise Untranslatable(f'validator {fn.name}: mode {kw.get("mode")} not modelled')
+        return False
+
+    validators = [n for n in cfg.body if isinstance(n, ast.FunctionDef) and is_after_validator(n)]
+    if not validators:
+        raise Untranslatable('no after-validators in Config')
+
+    def registers(fn):
+        hits = []
+        for node in ast.walk(fn):
+            if isinstance(node, ast.Assign) and any(isinstance(t, ast.Name) and t.id == '_config' for t in node.targets):
+                hits.append(node)
+        return hits
+
+    reg = [(i, fn, registers(fn)) for i, fn in enumerate(validators) if registers(fn)]
+    if len(reg) != 1 or len(reg[0][2]) != 1:
+        raise Untranslatable('singleton must be registered by exactly one assignment in exactly one validator')
+    idx, fn, (asg,) = reg[0]
+    if ast.unparse(asg.value) != 'self':
+        raise Untranslatable('singleton registration must be `_config = self`')
+    body = strip_doc(fn.body)
+    # registration must be a top-level statement of the validator (not in try/finally/if), directly
+    # followed by `return self`, and be preceded only by the global statement and the "already" refusal
+    top = [s for s in body if not isinstance(s, ast.Global)]
+    pos = next((k for k, s in enumerate(top) if s is asg), None)
+    unconditional_last = pos is not None and pos == len(top) - 2 and ast.unparse(top[-1]) == 'return self'
+    late = unconditional_last and idx == len(validators) - 1
+
+    def refuses_when_active(f):
+        for s in strip_doc(f.body):
+            if isinstance(s, ast.If) and ast.unparse(s.test) == '_config is not None' \
+                    and len(s.body) == 1 and isinstance(s.body[0], ast.Raise) \
+                    and 'RuntimeError' in ast.unparse(s.body[0]):
+                return True
+        return False
+
+    if not refuses_when_active(validators[0]) or not refuses_when_active(fn):
+        raise Untranslatable('the first validator and the registering validator must refuse when a configuration is active')
+    # reset / get / proxy
+    reset = find_function(mod, 'reset', cls='Config')
+    rb = [s for s in strip_doc(reset.body) if not isinstance(s, ast.Global)]
+    if [ast.unparse(s) for s in rb] != ['_config = None']:
+        raise Untranslatable('Config.reset must be exactly `_config = None`')
+    get = find_function(mod, 'get', cls='Config')
+    gb = [ast.unparse(s) for s in strip_doc(get.body) if not isinstance(s, ast.Global)]
+    if len(gb) != 2 or not gb[0].startswith('if _config is None:\n    raise ValueError(') or gb[1] != 'return _config':
+        raise Untranslatable('Config.get changed shape')
+    for meth, tail in (('__getattr__', 'return getattr(_config, name)'), ('__setattr__', 'return setattr(_config, name, value)')):
+        f = find_function(mod, meth, cls='ConfigProxy')
+        fb = [ast.unparse(s) for s in strip_doc(f.body) if not isinstance(s, ast.Global)]
+        if len(fb) != 2 or not fb[0].startswith('if _config is None:\n    raise ValueError(') or fb[1] != tail:
+            raise Untranslatable(f'ConfigProxy.{meth} changed shape')
+    frozen = []
+    for rel, cls in ((path, 'Config'), (Path(path).parent / 'weather.py', 'WeatherConfig'),
+                     (Path(path).parent / 'emissions.py', 'EmissionsConfig')):
+        m2 = _parse(rel)
+        c2 = next((n for n in m2.body if isinstance(n, ast.ClassDef) and n.name == cls), None)
+        if c2 is None:
+            raise Untranslatable(f'class {cls} not found')
+        mc = [s for s in c2.body if isinstance(s, ast.Assign) and ast.unparse(s.targets[0]) == 'model_config']
+        frozen.append(len(mc) == 1 and ast.unparse(mc[0].value).replace(' ', '') == 'ConfigDict(frozen=True)')
+    b = lambda x: 'true' if x else 'false'  # noqa: E731
+    return (f'(* after-validators in order: {", ".join(v.name for v in validators)}; singleton registered in {fn.name} *)\n'
+            f'Definition late_registration : bool := {b(late)}.\n'
+            f'Definition all_models_frozen : bool := {b(all(frozen))}.\n')
